@@ -27,7 +27,9 @@ DETERMINISTIC_METHOD_HEADERS = [
 FRONT_FILES = ["embed.hpp", "methods.hpp", "methods/all.hpp", "tapkee.hpp", "chain_interface.hpp"]
 # functions inside deterministic-path files that only a randomised configuration calls
 RANDOMISED_FUNCTIONS = ["eigendecomposition_impl_randomized"]
-# where std::rand-based draws are the documented vantage-point choice of an exact search (C02: unobservable)
+# the file whose `#ifdef CUSTOM_UNIFORM_RANDOM_FUNCTION` branch may draw vantage points from the global stream (the
+# documented override; C02: the search is exact for every vantage choice).  Any other rand() / uniform_random() call
+# in it is an ordinary random stream on a deterministic path, i.e. NOT accounted for (regression guard of F-VP-RAND)
 VANTAGE_FILES = ["neighbors/vptree.hpp"]
 RAND_NAMES = {"rand", "srand", "random", "drand48", "lrand48", "rand_r"}
 
@@ -458,6 +460,9 @@ def scan_tree(base, overrides=None):
                 if key not in _SCAN_CACHE:
                     _SCAN_CACHE[key] = FileScan(rel, open(p, errors="replace").read())
                 scans[rel] = _SCAN_CACHE[key]
+    for rel, text in (overrides or {}).items():
+        if rel not in scans:
+            scans[rel] = FileScan(rel, text)
     return scans
 
 
@@ -588,7 +593,11 @@ def analyse(repo, overrides=None):
     for rel, fn, ln, via in sorted(set(sites)):
         short = fn.split("::")[-1]
         det = rel in det_files and short not in RANDOMISED_FUNCTIONS
-        role = "vantageChoice" if rel in VANTAGE_FILES else "randomStream"
+        guard = scans[rel].guards[ln - 1] if 0 < ln <= len(scans[rel].guards) else ""
+        # the VP-tree owns its vantage generator (F-VP-RAND); the only draw from the global stream that is
+        # result-irrelevant is the documented override branch `#ifdef CUSTOM_UNIFORM_RANDOM_FUNCTION`
+        hooked = bool(re.search(r"(^|&& )ifdef\s+CUSTOM_UNIFORM_RANDOM_FUNCTION", guard))
+        role = "vantageChoice" if (rel in VANTAGE_FILES and hooked) else "randomStream"
         out.append({"name": "std::rand state via " + via, "file": rel, "line": ln, "scope": fn,
                     "decl": "call of %s()" % via, "mutable": True, "role": role, "det": det, "guard": ""})
     out.sort(key=lambda o: (o["file"], o["line"], o["name"]))
@@ -641,59 +650,107 @@ def accounted(o):
 # ---- regression snippets: hidden state the table MUST flag (an object with that name that is not accounted for) and
 # harmless declarations it must NOT flag.  Each snippet is spliced into a header of the repository in memory.
 MDS = "routines/multidimensional_scaling.hpp"
-IN_FUNCTION = "    const IndexType n_vectors = end - begin;\n"          # inside compute_distance_matrix (2nd overload)
-AT_NAMESPACE = "template <class RandomAccessIterator, class PairwiseCallback>\nDenseSymmetricMatrix compute_distance_matrix("
+VPT = "neighbors/vptree.hpp"
+FN, NS = "function", "namespace"
 SELFTEST = [
-    # (label, file, anchor, text inserted AFTER (function) / BEFORE (namespace) the anchor, name, must be flagged)
-    ("function-local static cache", MDS, IN_FUNCTION,
-     "    static DenseSymmetricMatrix memo;\n    if (memo.rows() == n_vectors) return memo;\n", "memo", True),
-    ("function-local thread_local cache", MDS, IN_FUNCTION,
-     "    thread_local DenseSymmetricMatrix memo;\n    if (memo.rows() == n_vectors) return memo;\n", "memo", True),
-    ("static thread_local", MDS, IN_FUNCTION,
-     "    static thread_local IndexType last_n = 0;\n    last_n = n_vectors;\n", "last_n", True),
-    ("static inside a lambda", MDS, IN_FUNCTION,
+    # (label, file, function whose body receives the snippet | None for namespace scope, snippet, name, must be flagged)
+    ("function-local static cache", MDS, "compute_distance_matrix",
+     "    static DenseSymmetricMatrix memo;\n    if (memo.rows() > 0) return memo;\n", "memo", True),
+    ("function-local thread_local cache", MDS, "compute_distance_matrix",
+     "    thread_local DenseSymmetricMatrix memo;\n    if (memo.rows() > 0) return memo;\n", "memo", True),
+    ("static thread_local", MDS, "compute_distance_matrix",
+     "    static thread_local IndexType last_n = 0;\n    last_n += 1;\n", "last_n", True),
+    ("static inside a lambda", MDS, "compute_distance_matrix",
      "    auto count_call = [&]() { static int calls = 0; return ++calls; };\n    (void)count_call();\n", "calls", True),
-    ("static data member of a class template", MDS, AT_NAMESPACE,
+    ("static data member of a class template", MDS, None,
      "template <class T> struct DistanceMemo\n{\n    static DenseSymmetricMatrix stored;\n    static void keep(const T& m) { stored = m; }\n};\n"
      "template <class T> DenseSymmetricMatrix DistanceMemo<T>::stored;\n\n", "stored", True),
-    ("inline static data member", MDS, AT_NAMESPACE,
+    ("inline static data member", MDS, None,
      "struct CallCounter\n{\n    static inline int count = 0;\n    static void tick() { ++count; }\n};\n\n", "count", True),
-    ("mutable member of a const static", MDS, AT_NAMESPACE,
+    ("mutable member of a const static", MDS, None,
      "struct HitCounter\n{\n    mutable int hits;\n};\nstatic const HitCounter hit_counter{0};\n"
      "inline int count_hit() { return ++hit_counter.hits; }\n\n", "hit_counter", True),
-    ("namespace-scope variable without static", MDS, AT_NAMESPACE,
+    ("namespace-scope variable without static", MDS, None,
      "namespace\n{\nDenseSymmetricMatrix shared_distance_cache;\n}\ninline void keep_distances(const DenseSymmetricMatrix& m) { shared_distance_cache = m; }\n\n",
      "shared_distance_cache", True),
-    ("inline variable", MDS, AT_NAMESPACE,
+    ("inline variable", MDS, None,
      "inline IndexType last_problem_size = 0;\ninline void note_size(IndexType n) { last_problem_size = n; }\n\n",
      "last_problem_size", True),
-    ("namespace-scope thread_local", MDS, AT_NAMESPACE,
+    ("namespace-scope thread_local", MDS, None,
      "thread_local IndexType tls_problem_size = 0;\ninline void note_tls(IndexType n) { tls_problem_size = n; }\n\n",
      "tls_problem_size", True),
-    ("rand() in a deterministic stage", MDS, IN_FUNCTION,
-     "    const IndexType first_row = std::rand() % (n_vectors + 1);\n    (void)first_row;\n", "std::rand state via std::rand", True),
-    ("constants", MDS, AT_NAMESPACE,
+    ("rand() in a deterministic stage", MDS, "compute_distance_matrix",
+     "    const IndexType first_row = std::rand() % 7;\n    (void)first_row;\n", "std::rand state via std::rand", True),
+    ("rand() in the VP-tree outside the override branch (F-VP-RAND reverted)", VPT, "buildFromPoints",
+     "        const int unguarded_vantage = std::rand() % 3;\n        (void)unguarded_vantage;\n",
+     "std::rand state via std::rand", True),
+    ("uniform_random() in the VP-tree outside the override branch", VPT, "buildFromPoints",
+     "        const double unguarded_fraction = tapkee::uniform_random();\n        (void)unguarded_fraction;\n",
+     "std::rand state via uniform_random", True),
+    ("constants", MDS, None,
      "static const int distance_passes = 2;\nconstexpr double distance_tolerance = 1e-12;\nstatic const char* const stage_name = \"mds\";\n\n",
      "distance_passes", False),
-    ("function-local constant", MDS, IN_FUNCTION,
+    ("function-local constant", MDS, "compute_distance_matrix",
      "    static const ScalarType half = 0.5;\n    (void)half;\n", "half", False),
 ]
+
+# used when a header no longer has the function / namespace the snippet is meant for: the snippet is then judged in
+# a synthetic header of the same path (a missing anchor is never an alarm by itself)
+SYNTHETIC = """#pragma once
+namespace tapkee
+{
+namespace tapkee_internal
+{
+template <class RandomAccessIterator, class PairwiseCallback>
+DenseSymmetricMatrix %(fn)s(RandomAccessIterator begin, RandomAccessIterator end, PairwiseCallback callback)
+{
+    DenseSymmetricMatrix result(end - begin, end - begin);
+    return result;
+}
+} // namespace tapkee_internal
+} // namespace tapkee
+"""
+
+
+def splice(src, rel, fn, text):
+    """insert `text` at a position found STRUCTURALLY (tokenizer + scope tracking, not source text): right after the
+    line holding the opening brace of the last definition of function `fn`, or — for fn None — right after the line
+    holding the opening brace of the innermost leading `namespace tapkee… {`.  None if there is no such position."""
+    try:
+        sc = FileScan(rel, src)
+    except Exception:
+        return None
+    toks, line = sc.toks, None
+    if fn is not None:
+        for i in range(len(toks) - 1):
+            if toks[i][0] == "{" and sc.ctx[i][1] == "" and sc.ctx[i + 1][1].split("::")[-1] == fn:
+                line = toks[i][1]
+    else:
+        for i in range(2, len(toks)):
+            if toks[i][0] == "{" and toks[i - 2][0] == "namespace" and toks[i - 1][0].startswith("tapkee") \
+                    and sc.ctx[i][0] == "namespace":
+                line = toks[i][1]
+                if not (i + 1 < len(toks) and toks[i + 1][0] == "namespace"):
+                    break
+    if line is None:
+        return None
+    lines = src.split("\n")
+    return "\n".join(lines[:line] + [text.rstrip("\n")] + lines[line:])
 
 
 def selftest(repo):
     """returns the list of snippets the scanner gets wrong (empty = pass)"""
     base = os.path.join(repo, "include", "tapkee")
     wrong = []
-    for label, rel, anchor, text, name, must_flag in SELFTEST:
-        src = open(os.path.join(base, rel)).read()
-        at = src.rfind(anchor)
-        if at < 0:
-            wrong.append("%s: anchor not found in %s (self-test needs updating)" % (label, rel))
-            continue
-        if anchor is IN_FUNCTION:
-            new = src[:at + len(anchor)] + text + src[at + len(anchor):]
-        else:
-            new = src[:at] + text + src[at:]
+    for label, rel, fn, text, name, must_flag in SELFTEST:
+        path = os.path.join(base, rel)
+        new = None
+        if os.path.exists(path):
+            new = splice(open(path, errors="replace").read(), rel, fn, text)
+        if new is None:
+            new = splice(SYNTHETIC % {"fn": fn or "compute_distance_matrix"}, rel, fn, text)
+        if new is None:
+            continue              # cannot happen with the synthetic header; never an alarm by itself
         try:
             table = analyse(repo, {rel: new})
         except Exception as ex:
